@@ -1,0 +1,32 @@
+// Observation hooks for external verification harnesses.
+// Everything in this file is inactive unless FOONATHAN_MEMORY_VERIF is defined.
+
+#ifndef FOONATHAN_MEMORY_DETAIL_VERIF_HOOKS_HPP_INCLUDED
+#define FOONATHAN_MEMORY_DETAIL_VERIF_HOOKS_HPP_INCLUDED
+
+#ifdef FOONATHAN_MEMORY_VERIF
+#include <cstddef>
+
+// Weak symbols: a harness that wants the events defines them, otherwise they are null and skipped.
+extern "C" void foonathan_memory_verif_insert(const void* list, void* mem, std::size_t size,
+                                              std::size_t node_size) __attribute__((weak));
+extern "C" void foonathan_memory_verif_yield(int point) __attribute__((weak));
+
+#define FOONATHAN_MEMORY_VERIF_INSERT(List, Mem, Size, NodeSize)                                   \
+    do                                                                                             \
+    {                                                                                              \
+        if (foonathan_memory_verif_insert)                                                         \
+            foonathan_memory_verif_insert(List, Mem, Size, NodeSize);                              \
+    } while (false)
+#define FOONATHAN_MEMORY_VERIF_YIELD(Point)                                                        \
+    do                                                                                             \
+    {                                                                                              \
+        if (foonathan_memory_verif_yield)                                                          \
+            foonathan_memory_verif_yield(Point);                                                   \
+    } while (false)
+#else
+#define FOONATHAN_MEMORY_VERIF_INSERT(List, Mem, Size, NodeSize) ((void)0)
+#define FOONATHAN_MEMORY_VERIF_YIELD(Point) ((void)0)
+#endif
+
+#endif // FOONATHAN_MEMORY_DETAIL_VERIF_HOOKS_HPP_INCLUDED
